@@ -25,7 +25,8 @@ type termSpec struct {
 	Noise     bool   `json:"noise,omitempty"`
 	// CloseAt (C13): "" | before-join | after-join | after-seen:<k> (k commands written) | after-respond | reset-after-join
 	CloseAt string `json:"close_at,omitempty"`
-	PreHB   int    `json:"pre_heartbeats,omitempty"` // extra heartbeats before the commands (moves the platform serial)
+	PreHB   int    `json:"pre_heartbeats,omitempty"`       // extra heartbeats before the commands (moves the platform serial)
+	PreHB2  int    `json:"pipelined_after_join,omitempty"` // requests sent without waiting once online (online-pipelined-* close points)
 	// SilentJoin: the terminal's first message is a 0x0001 (handled, joins, gets no reply), so the first
 	// platform frame on the connection - the first command - carries platform serial 0
 	SilentJoin bool `json:"silent_join,omitempty"`
@@ -52,8 +53,10 @@ type cmdScn struct {
 	// *ActiveMessage object (command, body and timeout are overwritten between calls, as a caller may do)
 	SeqCalls   [][]callSpec `json:"sequential_calls,omitempty"`
 	FailWrites bool         `json:"fail_writes,omitempty"`
-	Bound      int          `json:"bound,omitempty"`      // deviation bound override for this scenario (0 = the tier\'s bound)
-	Disconnect bool         `json:"disconnect,omitempty"` // C13 oracle (callers may get any error)
+	// FailWhenGone: writes to a terminal that has gone always fail (instead of failing as a 1-deviation choice)
+	FailWhenGone bool `json:"fail_when_gone,omitempty"`
+	Bound        int  `json:"bound,omitempty"`      // deviation bound override for this scenario (0 = the tier\'s bound)
+	Disconnect   bool `json:"disconnect,omitempty"` // C13 oracle (callers may get any error)
 	// SlowReplyMs: the user's OnWriteExecutionEvent callback takes this much virtual time for replies to location
 	// reports (the connection's writer is busy meanwhile and its queues fill up)
 	SlowReplyMs int `json:"slow_reply_ms,omitempty"`
@@ -247,6 +250,7 @@ func (r *cmdRun) runTerminal(ts *termState) {
 	p := r.w.dial()
 	ts.peer = p
 	p.C.FailWrites = r.scn.FailWrites
+	p.C.FailWhenGone = r.scn.FailWhenGone
 	closeNow := func(reset bool) {
 		ts.setClosed()
 		if reset {
@@ -297,6 +301,14 @@ func (r *cmdRun) runTerminal(ts *termState) {
 		return
 	case "reset-after-join":
 		closeNow(true)
+		return
+	case "online-pipelined-then-reset", "online-pipelined-then-close":
+		// online (callers may start), then several requests in flight and the terminal disappears: a command write can
+		// fail while the reader still holds requests it has read but not yet handed to the writer
+		for i := 0; i < sp.PreHB2; i++ {
+			p.Send(hbFrame(sp.V2019, sp.Phone, next()))
+		}
+		closeNow(sp.CloseAt == "online-pipelined-then-reset")
 		return
 	}
 	if sp.LocNow || sp.LocAfterMs > 0 {
